@@ -219,6 +219,18 @@ theorem tie_user : userSkeleton = mergeSkeletonFor "User" ∧ userAssigns = merg
     userListConds = ["if id != \"\" && id != conn.cluster.ClusterID && !options.BypassFederation",
       "if err != nil", "if err != nil"] := by decide
 
+/-- conn.go UserList / batchUpdateUsers (`userListDetour`, `runUserList`): the detour condition, the
+single call to chooseBackend(LoginCluster), the prefix test, "update only if there is something to
+update", errors returned. -/
+theorem tie_userListDetour :
+    userListCalls = ["conn.chooseBackend(id).UserList", "conn.chooseBackend", "conn.batchUpdateUsers",
+      "conn.generated_UserList"] ∧
+    batchUpdateCalls = ["strings.HasPrefix", "conn.local.UserBatchUpdate"] ∧
+    batchUpdateConds = ["if !strings.HasPrefix(user.UUID, id)", "if user.ModifiedAt.IsZero()",
+      "if user.CreatedAt.IsZero()", "if err != nil", "if err != nil", "if len(options.Select) > 0",
+      "if ok && userAttrsCachedFromLoginCluster[k]", "if !userAttrsCachedFromLoginCluster[k]",
+      "if len(batchOpts.Updates) > 0", "if err != nil"] := by decide
+
 /-! ### conn.go chooseBackend (`ArvVerif.C20.chooseBackend`) -/
 
 theorem tie_chooseBackend :
